@@ -648,12 +648,18 @@ PLANS["C16"] = {
         # block moves and swaps of two blocks: every case in every family where the answer is forced
         dict(name="moves", consts=trk_consts(0, 0, True), invariants=["G_Chars", "G_Lines"], budget=1000,
              variants=TRK_STRICT, per_tag=1, all_variants=True),
+        # seeded random driver beyond the exhaustive bound: 5-9 old lines, three author classes, <= 4 fresh lines
+        dict(name="random", consts=trk_consts(3, 2, False, authors=("H", "A1", "A2")), budget=700,
+             generator=_fn.trk_random_cases, variants=TRK_VARIANTS, per_tag=1),
     ],
     "thorough": [
         dict(name="edits", consts=trk_consts(4, 2, False), invariants=["G_Chars", "G_Lines"], budget=60000,
              variants=TRK_VARIANTS, per_tag=1, timeout=3000),
         dict(name="moves", consts=trk_consts(0, 0, True, authors=("H", "A1", "A2")), invariants=["G_Chars", "G_Lines"],
              budget=5000, variants=TRK_VARIANTS, per_tag=1, all_variants=True),
+        dict(name="random", consts=trk_consts(3, 2, False, authors=("H", "A1", "A2")), budget=12000,
+             generator=lambda seed, n: _fn.trk_random_cases(seed, n, lo=5, hi=14, maxfresh=6),
+             variants=TRK_VARIANTS, per_tag=1, timeout=3000),
     ],
 }
 CHECKS["C16"] = _core
